@@ -224,7 +224,7 @@ void {C_prefix}ShroudCopyStringAndFree({C_array_type} *data, char *c_var, size_t
 const char *cxx_var = data->addr.ccharp;
 size_t n = c_var_len;
 if (data->elem_len < n) n = data->elem_len;
-{stdlib}strncpy(c_var, cxx_var, n);
+if (n > 0) {stdlib}strncpy(c_var, cxx_var, n);  // cxx_var is NULL for an empty string
 {C_memory_dtor_function}(&data->cxx); // delete data->cxx.addr
 -}}{lend}
 """,
